@@ -31,9 +31,12 @@ func (u *NonRawRegexPattern) Fix(fc *FixCandidate, opts *RuntimeOptions) ([]FixR
 
 		line := []rune(lines[loc.Row-1])
 		startIdx := loc.Column - 1
-		endIdx := loc.End.Column - 2
 
-		if startIdx < 0 || endIdx > len(line) || startIdx >= endIdx {
+		// the end column of the location is not reliable, as it is based on the length of the text
+		// in bytes, so find the closing quote of the string starting at startIdx instead
+		endIdx := closingQuoteIndex(line, startIdx)
+
+		if startIdx < 0 || endIdx < 0 || startIdx >= endIdx {
 			continue
 		}
 
@@ -65,4 +68,23 @@ func (u *NonRawRegexPattern) Fix(fc *FixCandidate, opts *RuntimeOptions) ([]FixR
 		Root:     opts.BaseDir,
 		Contents: newContents,
 	}}, nil
+}
+
+// closingQuoteIndex returns the index of the double quote closing the string that
+// starts at startIdx, or -1 if there is no such string at that position.
+func closingQuoteIndex(line []rune, startIdx int) int {
+	if startIdx < 0 || startIdx >= len(line) || line[startIdx] != '"' {
+		return -1
+	}
+
+	for i := startIdx + 1; i < len(line); i++ {
+		switch line[i] {
+		case '\\':
+			i++ // skip the escaped character
+		case '"':
+			return i
+		}
+	}
+
+	return -1
 }
